@@ -58,7 +58,16 @@ def _one_mutant(args):
         c = subprocess.run([os.path.join(verif, "check"), pid, "quick"], capture_output=True, text=True, env=env, timeout=1500)
         clauses = sorted(set(l.split("clause=")[1].split()[0] for l in c.stdout.splitlines() if "clause=" in l and "KNOWN" not in l))
         verdict = "caught" if c.returncode == 1 and "VIOLATION property=" + pid in c.stdout else \
-            ("harness-error" if c.returncode == 2 else "MISSED")
+            ("harness-error" if c.returncode == 2 else ("MISSED" if c.returncode == 0 else f"check-exit-{c.returncode}"))
+        if verdict == "MISSED":
+            # a change written against one property may need a dimension that belongs to another one (e.g. threads)
+            meta = os.path.join(os.path.dirname(patch), "meta.json")
+            others = json.load(open(meta)).get("also_check", []) if os.path.exists(meta) else []
+            for other in others:
+                c2 = subprocess.run([os.path.join(verif, "check"), other, "quick"], capture_output=True, text=True, env=env, timeout=1500)
+                if c2.returncode == 1 and "VIOLATION property=" + other in c2.stdout:
+                    cl2 = sorted(set(l.split("clause=")[1].split()[0] for l in c2.stdout.splitlines() if "clause=" in l and "KNOWN" not in l))
+                    return patch, pid, f"caught by {other}", ",".join(cl2)
         return patch, pid, verdict + ("" if tests_ok else " (NOTE: baseline tests fail with this patch)"), ",".join(clauses)
     finally:
         shutil.rmtree(d, ignore_errors=True)
